@@ -33,6 +33,7 @@ def run(ctx):
                          "(flavour, token list); non-trivial = at least one effective engine write")
     ctx.assume("MockProvider flavours are the environment (bound to the provider contract by C16)", "virtual clock; ageing 0")
     ctx.model_check("SysMC", "MC_SysMC.cfg", "design: contract guards imply loss/confinement invariants", workers=4)
+    sc.run_exemplars(ctx, CLAUSES)
     p = plan(ctx)
     exhaustive = True
     for name, uni, nops, mode, limit in p["fams"]:
